@@ -34,6 +34,7 @@ def families : List (String × Family) :=
   ++ [("scale_codec", ScaleFam.wrap CodecWFam.family)]
   ++ [("scale_chunker", ScaleFam.wrap StreamFam.chunkerFamily)]
   ++ [("scale_reader", ScaleFam.wrap StreamFam.readerFamily)]
+  ++ [("scale_readn", ScaleFam.wrap ReadNFam.family)]
 
 def main (args : List String) : IO UInt32 := do
   match args with
